@@ -16,7 +16,7 @@ from common import Report, pick_samples, log
 from farm import Farm, Case
 from genlib import gen_request, generate, DEFAULT_OPTS
 
-REASONS = ["use other", 'say "hi" \\ back', "dépassé ✓", "line1\nline2"]
+REASONS = ["use other", 'say "hi" \\ back', "dépassé ✓", "line1\nline2", "  two  blanks\t and a tab, blanks at both ends ", ""]
 STYLES = ["direct", "aliased", "fragment", "variant", "interface"]
 STRATEGIES = [None, "allow", "warn", "deny"]
 
